@@ -5,7 +5,7 @@ From V.lib Require Import Base.
 From V.c13 Require Import C13Spec C13Model.
 From V.c15 Require Import C15Model C15Spec C15BitProofs C15AvcSpsProofs C15AvcPpsProofs
   C15HevcModel C15HevcSpec C15HevcBitProofs C15HevcSpsRpsProofs C15HevcPpsProofs C15HevcSliceBaseProofs
-  C15HevcSliceRpsProofs C15HevcSliceInterProofs C15HevcSliceMainProofs.
+  C15HevcSliceRpsProofs C15HevcSliceInterProofs C15HevcSliceMainProofs C15HevcSliceExamples.
 
 Local Notation "x <- m ;; k" := (bind m (fun x => k))
   (at level 61, m at next level, right associativity).
@@ -211,4 +211,18 @@ Proof.
   unfold run, ret. f_equal.
   subst n. rewrite <- hslice_size_bits_eq. rewrite (hu32_id _ Hsz).
   reflexivity.
+Qed.
+
+(* ------------------------------------------------------------------ the known finding C15-F11 *)
+Lemma hevc_slice_rps_refuted :
+  exists sp pp v,
+    hsps_valid sp = true /\ hpps_valid pp = true /\ hslice_valid sp pp v = true
+    /\ hparse_slice_br (fun id => if id =? sx_sps_seq_parameter_set_id sp then Some (expected_hsps sp) else None)
+                       (fun id => if id =? sx_pps_pic_parameter_set_id pp then Some (expected_hpps pp) else None)
+                       (hnalu_slice sp pp v)
+       <> Ok (expected_hslice sp pp v).
+Proof.
+  exists ex_hsps, ex_hpps_r, ex_hslice_r.
+  split; [vm_compute; reflexivity|]. split; [vm_compute; reflexivity|]. split; [vm_compute; reflexivity|].
+  vm_compute. discriminate.
 Qed.
